@@ -108,26 +108,33 @@ func VerifH_C05_killed_is_reported() {
 	verifAssert(m.parent == nil && m.status == StatusLive, "root-continues")
 }
 
-// K2: a kill inside a nested context that has no CPU limit of its own (the
-// shape of pcall / xpcall / callcontext({})) must not be interceptable: the
-// enclosing limited context may not run on.  The real Thread.CallContext is
-// used for both levels; the work done is a symbolic RequireCPU.
+// K2: a kill inside a nested context whose CPU limit is only what the enclosing
+// context had left (no limit of its own — the shape of pcall / xpcall /
+// callcontext({}) — or an explicit limit at least as large as that remainder)
+// must not be interceptable: the enclosing limited context may not run on.  A
+// nested context that dies of a smaller limit of its own does not terminate
+// its parent.  The real Thread.CallContext is used for both levels; the work
+// done is a symbolic RequireCPU.
 func VerifH_C05_kill_not_interceptable() {
 	_, t := vhNewRuntime()
 	L := nondetUint64("L")
 	verifAssume(L >= 2 && L < (uint64(1)<<40))
 	a := nondetUint64("a")
 	verifAssume(a < (uint64(1) << 40))
+	li := nondetUint64("Li") // the nested context's own limit, 0 = none
+	verifAssume(li < (uint64(1) << 40))
 	ranAfterKill := false
 	innerKilled := false
+	var rem uint64
 	outer, outerErr := t.CallContext(RuntimeContextDef{HardLimits: RuntimeResources{Cpu: L}}, func() error {
-		inner, _ := t.CallContext(RuntimeContextDef{}, func() error {
-			t.RequireCPU(a) // terminates the inner context iff a >= L
+		rem = L - t.UsedResources().Cpu
+		inner, _ := t.CallContext(RuntimeContextDef{HardLimits: RuntimeResources{Cpu: li}}, func() error {
+			t.RequireCPU(a)
 			return nil
 		})
 		if inner != nil && inner.Status() == StatusKilled {
 			innerKilled = true
-			// the limit L of the enclosing context was hit: no further code of
+			// if the limit L of the enclosing context was hit, no further code of
 			// that context may run, i.e. its next instruction must terminate it
 			t.RequireCPU(1)
 			ranAfterKill = true
@@ -135,15 +142,28 @@ func VerifH_C05_kill_not_interceptable() {
 		return nil
 	})
 	_ = outerErr
-	verifAssert(!innerKilled || a >= L, "inner-context-killed-only-when-limit-reached")
-	verifAssert(!ranAfterKill, "kill-not-interceptable-by-nested-context")
-	if a >= L {
+	eff := rem
+	if li != 0 && li < rem {
+		eff = li
+	}
+	innerDies := a >= eff
+	parentExhausted := innerDies && (li == 0 || li >= rem)
+	if !parentExhausted {
+		// (when the parent is exhausted as well, control never comes back to the
+		// code that reads the nested context's status)
+		verifAssert(innerKilled == innerDies, "nested-context-killed-exactly-when-its-own-limit-is-reached")
+	}
+	verifAssert(!(ranAfterKill && parentExhausted), "kill-not-interceptable-by-nested-context")
+	if parentExhausted {
 		verifReach("limit-hit")
 		verifAssert(outer != nil && outer.Status() == StatusKilled, "limited-context-reported-killed")
 		verifAssert(outer != nil && outer.UsedResources().Cpu < L, "reported-usage-below-limit")
-	} else {
+	} else if !innerDies {
 		verifReach("within-limit")
 		verifAssert(outer != nil && outer.Status() == StatusDone && outer.UsedResources().Cpu == a, "completes-with-exact-usage")
+	} else {
+		verifReach("nested-limit-hit")
+		verifAssert(outer != nil && outer.UsedResources().Cpu < L, "reported-usage-below-limit")
 	}
 }
 
